@@ -244,3 +244,12 @@ package ast
 //@   ensures[C16] noop: !old(has(e.RuleEntries, name)) ==> (forall k string :: has(e.RuleEntries, k) == old(has(e.RuleEntries, k)) && e.RuleEntries[k] == old(e.RuleEntries[k]))
 //@   ensures[C16] sticky: forall re *RuleEntry :: old(re.Deleted) ==> re.Deleted
 //@   ensures[C16] othersnames: forall re *RuleEntry :: !(old(has(e.RuleEntries, name)) && re == old(e.RuleEntries[name])) ==> re.RuleName == old(re.RuleName) && re.Deleted == old(re.Deleted)
+
+// library key of a knowledge base: "name:version"
+//@ func GetKnowledgeBaseKey(name, version) (r)
+//@   serves C16
+//@   nopanic
+//@   ensures r == name + ":" + version
+// distinct (name, version) pairs must not influence one another: the key must be injective. It is not when a name or
+// version contains ':' (known finding F13; the format is visible through the exported Library map).
+//@ lemma[C16] kbkey_injective: forall n1 string, v1 string, n2 string, v2 string :: n1 + ":" + v1 == n2 + ":" + v2 ==> n1 == n2 && v1 == v2
